@@ -19,6 +19,7 @@ SCHED = [None]  # optional scheduler: object with .yield_point(kind, info)
 SHARED = set()  # product roots whose files are ONE file object per path, handed out (rewound) by every open and never really closed:
 #                 the semantics of fsspec's own memory:// filesystem, on which only the caller's locking keeps two readers apart
 _shared = {}
+STALL = {}  # path -> [seconds, how many reads still stall]: a request that hangs for a long while (a stalled connection), after the seek
 JITTER = [0.0]  # seconds slept at the start of every read (after the seek that positioned it): lets the threads an implementation may
 #                 use internally interleave on a handle they share; harmless for a single reader
 BIGREAD = {}  # path -> [limit, times fired]: a read request above `limit` bytes fails with MemoryError (a memory-limited process, a container
@@ -143,6 +144,11 @@ class TracedFile(io.BytesIO):
             import time
 
             time.sleep(JITTER[0])
+        if STALL and self._path in STALL and STALL[self._path][1] > 0:
+            import time
+
+            STALL[self._path][1] -= 1
+            time.sleep(STALL[self._path][0])
         if BIGREAD and self._path in BIGREAD:
             lim = BIGREAD[self._path]
             n_ = (len(self.getvalue()) - self.tell()) if size is None or size < 0 else size
